@@ -23,7 +23,12 @@ GENERIC = (
     "counter-clockwise vertex order; CD vs PC/CDELT spelling of a WCS; positions exactly on the equator / prime meridian; `~` on Python bools "
     "(point-like operands of compounds); integer images beyond 2**53; sky positions the WCS cannot project (NaN pixels); None-valued metadata "
     "entries; empty slices/lists sharing storage; Decimal/Fraction/float16 numeric types; matplotlib keyword aliases (ha/va/size/lw/ec); "
-    "Fortran-ordered/strided/read-only arrays (`ravel(order='K')`); hidden settings of the wcslib object; shared module-level iterators/templates.")
+    "Fortran-ordered/strided/read-only arrays (`ravel(order='K')`); hidden settings of the wcslib object; shared module-level iterators/templates; algebraically equivalent rewrites that cancel badly far from the "
+    "origin (`a + (b - a)`, projecting before subtracting); compound operators other than `operator.and_/or_/xor`; samples exactly on an outline "
+    "(integer radii, Pythagorean offsets); strip/tile processing of very large masks; results that alias internal arrays; annulus holes with equal "
+    "axes; sky annulus vs its two outlines; properties of hand-written DS9 text dropped on re-serialisation; strings that look like template "
+    "placeholders (RAD, FMT, {0}); points exactly on pixel edges (round-half-even); grouping of nested compounds; keys valid in both meta and "
+    "visual; one-shot iterators as list arguments; combinations of matplotlib keywords; strings containing the closing delimiter.")
 
 LEFT = (
     "Think about what is LEFT: e.g. the order in which two independent features are applied; behaviour at the exact edge of a documented domain "
